@@ -349,7 +349,17 @@ def cases(draw, tier):
         op = dhops.op_strategy(kind, none_p=True, only=DH_ADD)
     else:
         op = scops.op_strategy(kind, none_p=True, unique_bulk=True, only=SC_ADD)
-    ops = draw(st.lists(op, min_size=1, max_size=n))
+    ops = draw(st.one_of(st.lists(op, min_size=1, max_size=4), st.lists(op, min_size=4, max_size=n)))
+    # the core scenario: after whatever happened, a few plain additions with automatic IDs
+    alph = nets.NODE_KINDS[kind]
+    for _ in range(draw(st.integers(0, 4))):
+        m = draw(st.lists(st.sampled_from(alph), min_size=1, max_size=3, unique=True))
+        if outcls == "H":
+            ops.append(["add_edge", m, "list", None, {}])
+        elif outcls == "DH":
+            ops.append(["add_edge", [m[:1], m[1:]], "list", "tuple", None, {}])
+        else:
+            ops.append(["add_simplex", m, "list", None, {}])
     return {"builder": name, "kind": kind, "base": spec, "idcast": idcast, "seed": draw(st.integers(0, 10**6)), "ops": ops}
 
 
@@ -373,6 +383,15 @@ def edge_state(H):
 
 ADDERS = {"add_edge", "add_edges_from", "add_weighted_edges_from", "add_node_to_edge", "update", "merge_duplicate_edges",
           "add_simplex", "add_simplices_from", "add_weighted_simplices_from"}
+
+
+def uses_automatic_id(cop, outcls):
+    n = cop[0]
+    if n in ("add_edge", "add_simplex"):
+        return (cop[4] if outcls == "DH" else cop[3]) is None
+    if n in ("add_edges_from", "add_simplices_from"):
+        return cop[1] in (1, 3) and len(cop[2]) > 0
+    return n in ("add_weighted_edges_from", "add_weighted_simplices_from", "update") or (n == "merge_duplicate_edges" and cop[1] == "new")
 
 
 def run_case(case, ctx):
@@ -452,7 +471,7 @@ def run_case(case, ctx):
                 if exc is None and mexc is None:
                     ctx.check(len(H._edge) == n_model, ("fresh-id", opname, "wrong-number-of-new-ids", name),
                               "step %d %r: %d edges before, %d after, model says %d (ids now %r)" % (step, cop, n_before, len(H._edge), n_model, list(H._edge)))
-                    if counter[0]:
+                    if uses_automatic_id(cop, outcls) and len(H._edge) > n_before:
                         auto_adds += 1
                 # 3. explicit existing ID -> warning, network unchanged
                 if opname in ("add_edge", "add_simplex") and exc is None:
@@ -472,6 +491,7 @@ def run_case(case, ctx):
             ctx.subchecks += 1
             if ctx.fails:
                 break
+        ctx.event("automatic-id-additions:%s" % (auto_adds if auto_adds < 3 else "3+"))
         ctx.mark(risky and auto_adds >= 2)
         if risky:
             ctx.event("risky-ids")
